@@ -41,12 +41,22 @@ func RunRace(c *Case, unit time.Duration) *RaceResult {
 	rootCtx, cancel := context.WithCancel(context.Background())
 	defer cancel()
 	childCtx := context.WithValue(rootCtx, ctxKey{}, "child")
+	ownCtx := make([]context.Context, len(jobs))
+	ownCancel := make([]context.CancelFunc, len(jobs))
+	for j := range jobs {
+		if jobs[j].Ctx == COwn {
+			ownCtx[j], ownCancel[j] = context.WithCancel(context.Background())
+			defer ownCancel[j]()
+		}
+	}
 	ctxFor := func(j int) context.Context {
 		switch jobs[j].Ctx {
 		case CChild:
 			return childCtx
 		case CBack:
 			return context.Background()
+		case COwn:
+			return ownCtx[j]
 		}
 		return rootCtx
 	}
@@ -84,6 +94,9 @@ func RunRace(c *Case, unit time.Duration) *RaceResult {
 				cancel()
 			}
 			ended[j].Store(1)
+			if jb.Ctx == COwn {
+				ownCancel[j]()
+			}
 			switch jb.Beh {
 			case BErr, BCancelErr:
 				return errs[j]
